@@ -116,7 +116,46 @@ class Ctx:
             for f in glob.glob(os.path.join(REPO_SRC, pat)):
                 shutil.copy2(f, self.src)
                 n += 1
+        os.makedirs(os.path.join(self.src, "java"))
+        for pat in ("*.c", "*.h"):
+            for f in glob.glob(os.path.join(REPO_SRC, "java", pat)):
+                shutil.copy2(f, os.path.join(self.src, "java"))
+                n += 1
         self.n_snap = n
+
+    def ctype_tables(self):
+        """dump glibc's C-locale ctype tables into <scratch>/inc/v_ctype_tables.h (once per run)"""
+        with self.lock:
+            inc = os.path.join(self.scratch, "inc")
+            out = os.path.join(inc, "v_ctype_tables.h")
+            if not os.path.exists(out):
+                os.makedirs(inc, exist_ok=True)
+                exe = os.path.join(inc, "gen_ctype")
+                subprocess.run(["gcc", "-O0", os.path.join(HARNESS, "gen_ctype_tables.c"), "-o", exe], check=True)
+                txt = subprocess.run([exe], capture_output=True, text=True, check=True, env=dict(os.environ, LC_ALL="C")).stdout
+                open(out, "w").write(txt)
+            return inc
+
+    def build_aldor(self):
+        """Rebuild the compiler binary from /repo's current sources in the scratch directory (makefile skeleton + src,
+        object files and mtimes kept, so only edited units are recompiled).  Returns a command prefix that runs it."""
+        with self.lock:
+            if getattr(self, "_aldor", None):
+                return self._aldor
+            top = os.path.join(REPO, "aldor")
+            bld = os.path.join(self.scratch, "build")
+            inc = ["--include=*/", "--include=Makefile*", "--include=*.am", "--include=*.in", "--include=*.m4", "--include=*.mk",
+                   "--include=config.status", "--include=configure*", "--include=libtool", "--include=amaux/***", "--exclude=*"]
+            subprocess.run(["rsync", "-a"] + inc + [top + "/", bld + "/"], check=True)
+            subprocess.run(["rsync", "-a", "--exclude=test/", "--exclude=*.i", "--exclude=*.s",
+                            os.path.join(top, "aldor/src") + "/", os.path.join(bld, "aldor/src") + "/"], check=True)
+            srcdir = os.path.join(bld, "aldor/src")
+            p = subprocess.run(["make", "-j%d" % NCPU, "aldor"], cwd=srcdir, capture_output=True, text=True)
+            if p.returncode != 0:
+                raise BuildError("scratch build of the aldor binary failed:\n" + (p.stdout + p.stderr)[-3000:])
+            lib = os.path.join(top, "aldor/lib/libfoamlib/al")
+            self._aldor = [os.path.join(srcdir, "aldor"), "-Nfile=" + os.path.join(srcdir, "aldor.conf"), "-I" + lib, "-Y" + lib]
+            return self._aldor
 
     def src_hash(self, names):
         out = {}
@@ -300,6 +339,20 @@ def classify_desc(desc):
 
 
 def run_query(ctx, q, known):
+    r = run_query1(ctx, q, known, [])
+    if r.status == "inconclusive" and getattr(r, "benign_shift_failed", False) and "no verdict" in r.detail:
+        # CBMC stops deciding the properties that follow a failed undefined-shift assertion (status UNKNOWN).  A left
+        # shift of a negative value is not a reportable event here (two's complement, DESIGN.md 1.2), so the query is
+        # decided again without that instrumentation; out-of-range shift distances are then caught by the functional
+        # assertions and the native replay instead.
+        r2 = run_query1(ctx, q, known, ["--no-undefined-shift-check"])
+        r2.wall += r.wall
+        r2.solver_s += r.solver_s
+        return r2
+    return r
+
+
+def run_query1(ctx, q, known, extra_flags):
     r = QResult(q=q)
     qdir = os.path.join(ctx.scratch, "q", re.sub(r"[^\w.-]", "_", q.name))
     os.makedirs(qdir, exist_ok=True)
@@ -311,8 +364,7 @@ def run_query(ctx, q, known):
         r.wall = time.time() - t0
         return r
     out = os.path.join(qdir, "cbmc.json")
-    cmd = cbmc_cmd(q, gb)
-    env_path = os.environ.get("PATH", "")
+    cmd = cbmc_cmd(q, gb) + extra_flags
     rc, wall, err = run_cmd(cmd, q.timeout, q.mem_gb, qdir, out)
     r.wall = time.time() - t0
     if rc is None:
@@ -355,6 +407,10 @@ def run_query(ctx, q, known):
             if pr["status"] == "FAILURE":
                 r.witness = True
             continue
+        if desc.startswith("no body for callee") and desc.split()[-1] in q.remove_bodies:
+            continue              # body removed on purpose (listed in assumptions)
+        if kind == "benign" and pr["status"] == "FAILURE" and desc.startswith("shift operand"):
+            r.benign_shift_failed = True
         if kind == "benign":      # left shift of a negative value: two's-complement semantics, see DESIGN.md 1.2
             continue
         r.n_props += 1
@@ -469,9 +525,41 @@ def replay(ctx, q, f, qdir):
     rdir = os.path.join(VERIF, "replays", ctx.pid)
     os.makedirs(rdir, exist_ok=True)
     tag = re.sub(r"[^\w.-]", "_", "%s.%s" % (q.name, f["prop"]))[:120]
+    if hpath.startswith(ctx.scratch):
+        # generated harness (and generated files it includes): keep copies next to the replay so that it stays buildable
+        def keep(path):
+            dst = os.path.join(rdir, tag + "." + os.path.basename(path))
+            txt = open(path, errors="replace").read()
+            for inc_ in re.findall(r'#include "(%s[^"]*)"' % re.escape(ctx.scratch), txt):
+                txt = txt.replace('"%s"' % inc_, '"%s"' % keep(inc_))
+            open(dst, "w").write(txt)
+            return dst
+        hpath = keep(hpath)
+        htxt = open(hpath).read()
     rfile = os.path.join(rdir, tag + ".c")
     srcs = [ctx.resolve_src(s) for s in q.srcs] + list(q.extra) + [os.path.join(HARNESS, s) for s in q.stubs]
     defs = [d for d in q.defs]
+    # functions whose bodies were removed for the solver are empty natively too: the replay uses a copy of the unit in
+    # which the DEFINITION line (name at column 0, the code base's style) is renamed, calls keep their name
+    rm_defs = []
+    if q.remove_bodies:
+        nsrcs = []
+        for sp in srcs:
+            try:
+                txt = open(sp, errors="replace").read()
+            except OSError:
+                nsrcs.append(sp)
+                continue
+            new = txt
+            for f_ in q.remove_bodies:
+                new = re.sub(r"(?m)^%s\(" % re.escape(f_), "%s__removed_for_replay(" % f_, new)
+            if new != txt:
+                cp = os.path.join(qdir, "replay_" + os.path.basename(sp))
+                open(cp, "w").write(new)
+                nsrcs.append(cp)
+            else:
+                nsrcs.append(sp)
+        srcs = nsrcs
     lines = []
     lines.append("/* replay of a CBMC counterexample -- generated by /verif/vlib/core.py")
     lines.append(" * property   : %s" % ctx.pid)
@@ -497,7 +585,16 @@ def replay(ctx, q, f, qdir):
     f["inputs"] = vals
     exe = os.path.join(qdir, tag + ".exe")
     cmd = GCC_BASE + (SAN if q.sanitize_replay else []) + ["-I" + ctx.src, "-I" + HARNESS] \
-        + ["-I" + i for i in q.includes] + defs + [rfile] + srcs + ["-o", exe, "-lm"]
+        + ["-I" + i for i in q.includes] + defs + rm_defs + [rfile] + srcs + ["-o", exe, "-lm"]
+    rmfile = None
+    if q.remove_bodies:
+        rmfile = os.path.join(qdir, tag + ".removed.c")
+        with open(rmfile, "w") as fh:
+            for f_ in q.remove_bodies:
+                fh.write("#undef %s\nvoid %s(void) {}\n" % (f_, f_))
+        obj = rmfile[:-2] + ".o"
+        subprocess.run(["gcc", "-c", "-w", rmfile, "-o", obj], capture_output=True)
+        cmd.append(obj)
     p = subprocess.run(cmd, capture_output=True, text=True)
     if p.returncode != 0:
         # functions the solver treated as unmodelled externals: give them trapping bodies and relink
@@ -732,6 +829,7 @@ def main_for(pid, info, make_queries, argv=None):
     seed = int(os.environ.get("VERIF_SEED", "0") or 0)
     ctx = Ctx(pid, a.tier, seed, a.jobs, a.keep)
     rc = 2
+    shutil.rmtree(os.path.join(VERIF, "replays", pid), ignore_errors=True)
     try:
         known, fixed = load_known(pid)
         extra = {}
